@@ -2,7 +2,6 @@
 import glob
 import json
 import os
-from concurrent.futures import ThreadPoolExecutor
 
 from vf import env, table, core
 
@@ -27,11 +26,12 @@ META = dict(
                "token sequences by concatenation.",
 )
 
-QUICK = dict(MaxTok=3, MaxRE=2, MaxName=4, PairTok=1, Pair2Tok=1, PairRE=1, TripleSize=4, Parts=64)
-THOROUGH = dict(MaxTok=4, MaxRE=3, MaxName=4, PairTok=2, Pair2Tok=1, PairRE=1, TripleSize=8, Parts=64)
+QUICK = dict(MaxTok=3, MaxRE=2, MaxName=4, PairTok=1, Pair2Tok=1, PairRE=1, TripleSize=3, Parts=64)
+THOROUGH = dict(MaxTok=4, MaxRE=3, MaxName=4, PairTok=2, Pair2Tok=1, PairRE=1, TripleSize=5, Parts=64)
 FILL_COUNTS = (98, 99, 100, 200)
 UNKNOWN = 99
-_NAMES = []          # [(chars, string)], set before forking
+_NAMES = []          # [(chars, string)] in the order of Glob!NameSeq (index + 1), set before forking
+_IDX = {}            # string -> index in NameSeq
 
 
 def render(tokens):
@@ -42,12 +42,12 @@ def entry_text(e):
     return e["pre"] + render(e["pat"])
 
 
-def fillers(n, pre=""):
-    """n never-matching patterns of each Globster class (extension, basename, fullpath)."""
-    out = []
-    for i in range(n):
-        out += ["%s*.zz%d" % (pre, i), "%szz%d" % (pre, i), "%szz%d/zz" % (pre, i)]
-    return out
+FILL = {1: "%s*.zz%d", 2: "%szz%d", 3: "%szz%d/zz"}      # class rank (Glob!KR) -> never-matching pattern of that class
+
+
+def fillers(n, combos):
+    """n never-matching patterns for every (prefix, class rank) in combos, interleaved."""
+    return [FILL[kr] % (pre, i) for i in range(n) for pre, kr in combos]
 
 
 def insert(items, pos, extra):
@@ -61,6 +61,8 @@ class Case:
         self.pre = [e["pre"] for e in self.L]
         self.plain = [render(e["pat"]) for e in self.L]
         self.full = [entry_text(e) for e in self.L]
+        self.combos = sorted(set(zip(self.pre, case["kr"])))          # (prefix, class) of the real patterns
+        self.kinds = sorted({("", kr) for kr in case["kr"]})
 
     def idx_plain(self, ret):
         """canonical index of a string returned by Globster / _OrderedGlobster (prefixes do not count)."""
@@ -109,7 +111,7 @@ def _hits(cols):
     keys = set()
     for d in cols.values():
         keys |= set(d)
-    return [dict({"name": list(s)}, **{f: d.get(s, 0) for f, d in cols.items()}) for s in sorted(keys)]
+    return [dict({"n": _IDX[s]}, **{f: d.get(s, 0) for f, d in cols.items()}) for s in sorted(keys, key=_IDX.get)]
 
 
 def _run_case(sub, k, case, treedir):
@@ -131,14 +133,20 @@ def _run_case(sub, k, case, treedir):
         wt = WorkingTree.open(treedir)
         return wt.is_ignored
     cols["tr"] = _observe(tree_matcher, c.idx_exc)
-    row = {"k": k, "L": c.L, "nn": len(_NAMES), "obs": ["eg", "g", "og", "tr"], "hits": _hits(cols)}
-    # grouping: never-matching fillers before / between / after the real patterns, observed on every name that is
-    # reported by some matcher and on every 6th other name of the grammar
+    chk = k % len(_NAMES)
+    row = {"k": k, "L": c.L, "nn": len(_NAMES), "chk": {"n": chk + 1, "name": _NAMES[chk][0]},
+           "obs": ["eg", "g", "og", "tr"], "hits": _hits(cols)}
+    # grouping: n never-matching fillers of every (prefix, class) that occurs in the list, inserted before / between
+    # / after the real patterns, so that every real pattern moves across the 99-pattern group boundary; observed on
+    # (a rotating sample of <= ~40 of) the names reported by some matcher and on every 8th other name
     hit = set()
     for d in cols.values():
         hit |= set(d)
-    on = [s for j, (_, s) in enumerate(_NAMES) if s in hit or (j + k) % 6 == 0]
-    row["fon"] = [list(s) for s in on]
+    step = 1 + len(hit) // 32
+    hits_sorted = sorted(hit)
+    keep = {s for j, s in enumerate(hits_sorted) if (j + k) % step == 0}
+    on = [s for j, (_, s) in enumerate(_NAMES) if s in keep or (s not in hit and (j + k) % 8 == 0)]
+    row["fon"] = [_IDX[s] for s in on]
     groups = {}
     positions = range(len(c.L) + 1)
     nvar = 0
@@ -146,12 +154,12 @@ def _run_case(sub, k, case, treedir):
         for pos in positions:
             label = "n=%d,pos=%d" % (n, pos)
             nvar += 1
-            v = {"eg": _observe(lambda: ExceptionGlobster(insert(
-                        c.full, pos, fillers(n) + fillers(n, "!") + fillers(n, "!!"))).match, c.idx_exc, on),
-                 "g": _observe(lambda: Globster(insert(c.plain, pos, fillers(n))).match, c.idx_plain, on)}
-            # _OrderedGlobster has one regex per pattern (no grouping): one rotating variant per list, n fillers
+            v = {"eg": _observe(lambda: ExceptionGlobster(insert(c.full, pos, fillers(n, c.combos))).match,
+                                c.idx_exc, on),
+                 "g": _observe(lambda: Globster(insert(c.plain, pos, fillers(n, c.kinds))).match, c.idx_plain, on)}
+            # _OrderedGlobster has one regex per pattern (no grouping): one rotating variant per list
             if (k + nvar) % (len(FILL_COUNTS) * len(positions)) == 0:
-                v["og"] = _observe(lambda: _OrderedGlobster(insert(c.plain, pos, fillers(n)[:n])).match,
+                v["og"] = _observe(lambda: _OrderedGlobster(insert(c.plain, pos, fillers(n, c.kinds[:1]))).match,
                                    c.idx_plain, on)
             else:
                 v["og"] = {s: i for s, i in cols["og"].items() if s in on}
@@ -179,16 +187,6 @@ def _replay(sub, chunk):
         json.dump(rows, f)
 
 
-def _judge(ctx, rows, constants, njobs=6):
-    """table.judge on njobs slices at once: the Trace module evaluates its verdict table in one thread per TLC."""
-    size = max(100, -(-len(rows) // njobs))
-    slices = [rows[i:i + size] for i in range(0, len(rows), size)]
-    with ThreadPoolExecutor(len(slices)) as ex:
-        parts = list(ex.map(lambda sl: table.judge(ctx, "GlobTrace", sl, constants=constants, timeout=1500, workers=2),
-                            slices))
-    return [b for p in parts for b in p]
-
-
 def _kinds(c):
     def kind(t):
         t = t.rstrip("/")
@@ -201,7 +199,7 @@ def _kinds(c):
 
 
 def run(ctx):
-    global _NAMES
+    global _NAMES, _IDX
     env.init()
     from breezy import ignores
     ignores._set_user_ignores([])                # the scratch BRZ_HOME must not contribute default patterns
@@ -211,6 +209,7 @@ def run(ctx):
     if not names or not cases:
         ctx.machinery("empty case table")
     _NAMES = [(list(n), render(n)) for n in names]
+    _IDX = {s: j + 1 for j, (_, s) in enumerate(_NAMES)}
     core.fork_map(ctx, _replay, list(enumerate(cases)))
     rows = []
     for f in glob.glob(os.path.join(ctx.workdir, "c48rows_*.json")):
@@ -230,9 +229,10 @@ def run(ctx):
     ctx.cov["names"] = len(names)
     ctx.cov["lists"] = len(cases)
     ctx.cov["exhaustive"] = True
+    nm = [t for _, t in _NAMES]
     for r in (rows[len(rows) // 3], rows[2 * len(rows) // 3], rows[-1]):
         ctx.sample({"patterns": [entry_text(e) for e in r["L"]],
-                    "reported": {render(h["name"]): {f: h[f] for f in ("eg", "g", "og", "tr")} for h in r["hits"][:6]}})
+                    "reported": {nm[h["n"] - 1]: {f: h[f] for f in ("eg", "g", "og", "tr")} for h in r["hits"][:6]}})
     ctx.rule("ignore lists enumerated by TLC: every well-formed pattern of <= %(MaxTok)s tokens over {a b . * ? / **/ "
              "[ab]} and RE: + <= %(MaxRE)s of {a b / . .*}; both orders of two prefixed entries ('', '!', '!!') over "
              "patterns of <= %(PairTok)s and <= %(Pair2Tok)s tokens; triples of prefixed entries over a pool of "
@@ -241,24 +241,23 @@ def run(ctx):
              "class and prefix before, between and after; non-trivial = the list ignores some but not all names"
              % consts)
     ctx.assume("names contain no newline, backslash or non-ASCII character; patterns are inside the documented grammar")
-    judged = [{k: v for k, v in r.items() if not k.startswith("_")} for r in rows]
     gconsts = {k: consts[k] for k in ("MaxTok", "MaxRE", "MaxName")}
 
     def proj(hits, on=None):
-        return sorted((render(h["name"]), h["eg"], h["g"], h["og"]) for h in hits
-                      if (h["eg"] or h["g"] or h["og"]) and (on is None or h["name"] in on))
+        return sorted((h["n"], h["eg"], h["g"], h["og"]) for h in hits
+                      if (h["eg"] or h["g"] or h["og"]) and (on is None or h["n"] in on))
 
-    for row, failed, drift in _judge(ctx, judged, gconsts):
+    for row, failed, drift in table.judge(ctx, "GlobTrace", rows, constants=gconsts, timeout=1500, workers=4, chunk=30000):
         pats = [entry_text(e) for e in row["L"]]
         exp = {render(h["name"]): h for h in cases[row["k"]]["exp"]}
-        got = {render(h["name"]): h for h in row["hits"]}
+        got = {nm[h["n"] - 1]: h for h in row["hits"]}
         diff = [(n, {f: got.get(n, {}).get(f, 0) for f in row["obs"]},
                  "predicted", {f: exp.get(n, {}).get(f, 0) for f in ("eg", "g", "og")})
                 for n in sorted(set(exp) | set(got))
                 if any(got.get(n, {}).get(f, 0) != exp.get(n, {}).get(f, 0) for f in ("eg", "g", "og"))
                 or got.get(n, {}).get("tr", 0) != got.get(n, {}).get("eg", 0)][:6]
         if "coverage" in failed:
-            ctx.machinery("row evaluated %s names, the spec has a different number" % row["nn"])
+            ctx.machinery("row %s: names evaluated by the harness and names of the spec disagree" % row["k"])
         for law in failed:
             if law == "chunk":
                 lab = [g["labels"] for g in row["fills"] if proj(g["hits"]) != proj(row["hits"], row["fon"])]
